@@ -201,7 +201,7 @@ func canonFlags(fl []imap.Flag) []string {
 	return o
 }
 
-var flagPool = []imap.Flag{imap.FlagSeen, imap.FlagAnswered, imap.FlagFlagged, imap.FlagDeleted, imap.FlagDraft, imap.FlagForwarded, imap.FlagJunk, "custom", "$Label1", "\\X-Ext", "UPPER", "\\seen", "\\RECENT"}
+var flagPool = []imap.Flag{imap.FlagSeen, imap.FlagAnswered, imap.FlagFlagged, imap.FlagDeleted, imap.FlagDraft, imap.FlagForwarded, imap.FlagJunk, "custom", "$Label1", "\\X-Ext", "UPPER", "\\seen", "\\RECENT", "Seen", "deleted", "Draft", "FLAGGED", "answered", "Recent", "Forwarded", "Junk"}
 
 func randFlags(rng *rand.Rand, min int) []imap.Flag {
 	var o []imap.Flag
